@@ -437,8 +437,21 @@ const stressG = 8
 
 // wide touches every kind of node, type and statement the library converts, so that whatever it
 // builds lazily per kind is first built here.
+// posixTypes: 140 string types with openconfig posix-pattern extension statements of 50 to 70 bytes
+// each (more distinct long patterns than a table of 128 holds), a few of them shared by several leaves
+var posixTypes = func() string {
+	var sb strings.Builder
+	for i := 0; i < 140; i++ {
+		fmt.Fprintf(&sb, ` leaf px%d { type string { oc:posix-pattern "^[a-z]{%d}(abcdefghijklmnopqrstuvwxyz0123456789){1,%d}[0-9]*$"; pattern "[a-z]{%d}.*"; } }`, i, i+1, i%7+1, i+1)
+	}
+	sb.WriteString(` typedef shared { type string { oc:posix-pattern "^(the-same-long-posix-pattern-of-more-than-48-bytes-[a-z0-9]+)$"; } } leaf ps1 { type shared; } leaf ps2 { type shared; } leaf ps3 { type shared { oc:posix-pattern "^(the-same-long-posix-pattern-of-more-than-48-bytes-[a-z0-9]+)$"; } }`)
+	return sb.String()
+}()
+
 func wide(tag string) []dump.File {
 	return []dump.File{
+		{Name: "oc.yang", Text: `module openconfig-extensions { yang-version 1.1; namespace "urn:oc"; prefix oc; extension posix-pattern { argument pattern; } }`},
+		{Name: "pp.yang", Text: `module pp { yang-version 1.1; ` + H("pp") + ` import openconfig-extensions { prefix oc; }` + posixTypes + ` leaf tag { type string; default "` + tag + `"; } }`},
 		{Name: "w.yang", Text: `module w { yang-version 1.1; ` + H("w") + ` include ws; import x { prefix x; } revision 2020-01-01; extension ext { argument a; } feature f;
  typedef t { type int8 { range "1..9"; } default 3; units u; } typedef u { type union { type t; type string { length "1..4"; pattern "a.*"; } type enumeration { enum one; enum two { value 5; } } type bits { bit b0; bit b7 { position 7; } } } }
  typedef d { type decimal64 { fraction-digits 2; range "1.5..2.5"; } } identity base; identity d1 { base base; } identity d2 { base d1; base x:xb; }
